@@ -282,6 +282,7 @@ struct Explorer<'a, T: Sc> {
     bitwise_equal_twins: u64,
     tolerance_twins: u64,
     only_path: Option<Vec<usize>>,
+    long_walk_steps: u64,
 }
 
 impl<'a, T: Sc> Explorer<'a, T> {
@@ -684,7 +685,33 @@ impl<'a, T: Sc> Explorer<'a, T> {
         self.transitions += 1; // construction = one update at the model's parameters
         self.check_state(&root, 0, None);
         self.dfs(&root, 0);
-        let (t, k, be, tt) = (self.transitions, self.keys.len() as u64, self.bitwise_equal_twins, self.tolerance_twins);
+        // beyond the depth bound: a few LONG deterministic walks (count-dependent effects such as a cache that
+        // is refreshed only every k-th update): the whole alphabet cyclically x3, every entry repeated 4 times,
+        // and a ping-pong between the first and every other entry
+        if self.only_path.is_none() {
+            let n = self.alphas_t.len();
+            let mut walks: Vec<Vec<usize>> = vec![];
+            walks.push((0..3 * n).map(|i| i % n).collect());
+            walks.push((0..4 * n).map(|i| i / 4).collect());
+            walks.push((0..2 * n).map(|i| if i % 2 == 0 { 0 } else { (i / 2) % n }).collect());
+            for w in walks {
+                let mut node: Vec<Box<dyn Prob<T>>> = root.iter().map(|p| p.clone_box()).collect();
+                self.hist.clear();
+                for &ai in &w {
+                    let prev: Vec<u64> = node[0].params().iter().map(|v| v.bits()).collect();
+                    let a = DVector::from_vec(self.alphas_t[ai].clone());
+                    for p in node.iter_mut() {
+                        p.set(&a);
+                    }
+                    self.transitions += 1;
+                    self.hist.push(ai);
+                    self.check_state(&node, ai, Some(prev));
+                }
+                self.hist.clear();
+                self.long_walk_steps += w.len() as u64;
+            }
+        }
+        let (t, k, be, tt, lw) = (self.transitions, self.keys.len() as u64, self.bitwise_equal_twins, self.tolerance_twins, self.long_walk_steps);
         let nalpha = self.alphas_t.len() as u64;
         self.ctx.with(|s| {
             s.add("transitions", t);
@@ -694,6 +721,7 @@ impl<'a, T: Sc> Explorer<'a, T> {
             s.add("alphabet_entries", nalpha);
             s.add("twin_comparisons_bitwise_equal", be);
             s.add("twin_comparisons_within_tolerance", tt);
+            s.add("long_walk_steps", lw);
             s.inc("scenarios");
         });
     }
@@ -720,6 +748,7 @@ fn explore<T: Sc>(ctx: &Ctx, sc: &Scen, sc_index: usize, prop: &str, only_path: 
         bitwise_equal_twins: 0,
         tolerance_twins: 0,
         only_path,
+        long_walk_steps: 0,
     };
     if ex.failing[0] {
         return; // the initial guess must be accepted
